@@ -52,8 +52,51 @@ def _text_for(lw: L.Lowerer, ob: Ob, level: int, extra_assume=()):
     return text, used
 
 
+def shared_cuts(lhs: Sym, rhs: Sym, threshold=6, mode="max"):
+    """Frontier of sub-DAGs shared by both sides (same hash-consed node) with at least `threshold` nodes below."""
+    ca = {n.nid: n for n in reachable([lhs])}
+    cb = {n.nid: n for n in reachable([rhs])}
+    if lhs.nid in cb or rhs.nid in ca:
+        return {}
+    shared = set(ca) & set(cb)
+    if not shared:
+        return {}
+    # cone sizes (number of distinct nodes) computed lazily for frontier candidates only
+    frontier = {}
+    for root, own in ((lhs, ca), (rhs, cb)):
+        stack = [root]
+        seen = set()
+        while stack:
+            n = stack.pop()
+            if n.nid in seen:
+                continue
+            seen.add(n.nid)
+            if n.nid in shared:
+                if n.op not in ("const", "var"):
+                    frontier[n.nid] = n
+                continue
+            for a in n.args:
+                if isinstance(a, Sym):
+                    stack.append(a)
+                elif isinstance(a, SymBool):
+                    stack.extend(bool_syms(a))
+    cuts = {}
+    cones = {}
+    for nid, n in frontier.items():
+        c = reachable([n])
+        if len(c) >= threshold:
+            cuts[nid] = True
+            cones[nid] = {x.nid for x in c}
+    if mode == "deep":
+        # drop a cut whose cone contains another cut: it stays an exact expression of the deeper cut variables
+        for nid in list(cuts):
+            if any(o != nid and o in cones[nid] for o in cuts):
+                del cuts[nid]
+    return cuts
+
+
 def discharge(obs, lw: L.Lowerer = None, timeout=20.0, levels=(1, 2), pool=None, log=None, keep_text=3,
-              per_ob_lowerer=False):
+              per_ob_lowerer=False, cut_threshold=6):
     """Decide every obligation.  Sets ob.verdict in {'discharged','candidate','inconclusive'}."""
     pool = pool or solve.pool()
     lw = lw or L.Lowerer()
@@ -74,40 +117,89 @@ def discharge(obs, lw: L.Lowerer = None, timeout=20.0, levels=(1, 2), pool=None,
             o.level = 0
             o.time = r["time"] / max(1, len(triv))
     nkept = 0
-    for level in levels:
-        if not todo:
-            break
+    maxlevel = max(levels)
+    # ---- stage A: cross-multiplied encoding, free atoms, short timeout (discharges almost everything)
+    if todo:
         jobs = []
         for o in todo:
             l = L.Lowerer() if per_ob_lowerer else lw
-            text, used = _text_for(l, o, level)
+            text, used = _text_for(l, o, min(levels))
             o.symbols = used
             if nkept < keep_text:
                 o.text = text
                 nkept += 1
-            jobs.append((text, timeout, "z3", True))
+            jobs.append((text, min(timeout, max(3.0, timeout / 4.0)), "z3", True))
         res = pool.run(jobs)
-        nxt = []
+        left = []
         for o, r in zip(todo, res):
             o.time += r.get("time", 0.0)
-            o.level = level
+            o.level = "pairs/%d" % min(levels)
             if r["result"] == "unsat":
                 o.verdict = "discharged"
-            elif r["result"] == "sat":
-                o.model = r.get("model", {})
-                if level < max(levels):
-                    nxt.append(o)  # may be an artefact of the free-atom abstraction
-                    o.verdict = "candidate"
-                else:
-                    o.verdict = "candidate"
             else:
                 o.verdict = "inconclusive"
-                o.detail = r.get("detail", "")
-                if level < max(levels):
-                    nxt.append(o)
+                o.detail = r.get("detail", r["result"])
+                if r["result"] == "sat":
+                    o.model = r.get("model", {})
+                    if min(levels) >= maxlevel:
+                        o.verdict = "candidate"
+                        continue
+                left.append((o, r["result"]))
         if log:
-            log("  level %d: %d queries, %d left" % (level, len(todo), len(nxt)))
-        todo = nxt
+            log("  stage A: %d queries, %d left" % (len(todo), len(left)))
+        # ---- stage B: portfolio for the rest, all variants at once
+        if left:
+            jobs, tags = [], []
+            for o, first in left:
+                variants = []
+                if first != "sat":  # sat under free atoms is final for level 1; only level 2 can refute it
+                    if o.cond is None and cut_threshold:
+                        prev = None
+                        for mode in ("max", "deep"):
+                            cuts = shared_cuts(o.lhs, o.rhs, cut_threshold, mode)
+                            if cuts and cuts != prev:
+                                prev = cuts
+                                variants.append(("cut-%s" % mode, dict(cuts=cuts), 1))
+                                variants.append(("cut-%s-divvar" % mode, dict(cuts=cuts, divvar=True), 1))
+                    variants.append(("divvar", dict(divvar=True), 1))
+                    variants.append(("pairs", dict(), 1))
+                for lv in levels:
+                    if lv > 1:
+                        variants.append(("divvar", dict(divvar=True), lv))
+                        variants.append(("pairs", dict(), lv))
+                for name, kw, lv in variants:
+                    try:
+                        text, used = _text_for(L.Lowerer(**kw), o, lv)
+                    except KeyError:
+                        continue
+                    jobs.append((text, timeout, "z3", True))
+                    tags.append((o, name, lv))
+            groups = [id(t[0]) for t in tags]
+
+            def final(qid, r):
+                o, name, lv = tags[qid]
+                return r["result"] == "unsat" or (r["result"] == "sat" and lv >= maxlevel and not name.startswith("cut"))
+
+            res = pool.run(jobs, groups=groups, final=final)
+            for (o, name, lv), r in zip(tags, res):
+                o.time += r.get("time", 0.0)
+                if r["result"] == "unsat":
+                    if o.verdict != "discharged":
+                        o.verdict = "discharged"
+                        o.level = "%s/%d" % (name, lv)
+                        o.model = None
+            for (o, name, lv), r in zip(tags, res):
+                if o.verdict == "discharged":
+                    continue
+                if r["result"] == "sat" and lv >= maxlevel and not name.startswith("cut"):
+                    o.verdict = "candidate"
+                    o.level = "%s/%d" % (name, lv)
+                    o.model = r.get("model", {})
+                elif o.verdict != "candidate":
+                    o.detail = r.get("detail", r["result"])
+            if log:
+                log("  stage B: %d portfolio queries for %d obligations, %d not discharged" % (
+                    len(jobs), len(left), sum(1 for o, _ in left if o.verdict != "discharged")))
     return obs
 
 
